@@ -64,6 +64,15 @@ Proof.
   destruct (f1 s1 x) as [a|e1], (f2 s2 x) as [b|e2]; simpl; try contradiction; [apply IH; exact H|exact H].
 Qed.
 
+(* a fold over a state that is the image of another state *)
+Lemma fold_iso {A S1 S2} (to : S2 -> S1) (f1 : S1 -> A -> res S1) (f2 : S2 -> A -> res S2) :
+  (forall s x, f1 (to s) x = bind (f2 s x) (fun s' => Ok (to s'))) ->
+  forall l s, foldM f1 l (to s) = bind (foldM f2 l s) (fun s' => Ok (to s')).
+Proof.
+  intros H. induction l as [|x xs IH]; intros s; simpl; [reflexivity|].
+  rewrite H, !pg_bind_assoc. apply pg_bind_ext. intros s'. simpl. apply IH.
+Qed.
+
 (* ---------------- the traversal idiom ---------------- *)
 Lemma passes_exits_eq log : Passes.exits log = TraverseInv.exits log.
 Proof. reflexivity. Qed.
